@@ -307,7 +307,7 @@ func (ps *parser) mul() *Expr {
 }
 
 func (ps *parser) unary() *Expr {
-	if ps.isOp("!") || ps.isOp("-") || ps.isOp("*") {
+	if ps.isOp("!") || ps.isOp("-") || ps.isOp("*") || ps.isOp("&") {
 		o := ps.next().text
 		x := ps.unary()
 		return &Expr{Op: "unop", Name: o, Args: []*Expr{x}}
@@ -544,6 +544,14 @@ type FuncSpec struct {
 	Calls    []*CallSpec
 	File     string
 	Line     int
+
+	GhostSets []*GhostSet
+}
+
+// GhostSet: `ghostset g(x) = e`.
+type GhostSet struct {
+	Target *Clause // g(x)
+	Val    *Clause
 }
 
 type LetSpec struct {
@@ -601,7 +609,7 @@ type PkgSweep struct {
 var clauseKeywords = map[string]bool{
 	"func": true, "requires": true, "ensures": true, "modifies": true, "pure": true, "inline": true, "opaque": true,
 	"panics": true, "floats": true, "loop": true, "invariant": true, "decreases": true, "at": true, "assert": true,
-	"spec": true, "ghost": true, "sweep-package": true, "lemma": true, "extern": true, "props": true, "let": true, "trusted": true, "axiom": true, "nobody": true, "sweep": true, "reads": true, "noframe": true,
+	"spec": true, "ghost": true, "sweep-package": true, "lemma": true, "extern": true, "props": true, "let": true, "trusted": true, "axiom": true, "nobody": true, "sweep": true, "reads": true, "noframe": true, "ghostset": true,
 }
 
 type rawClause struct {
@@ -866,6 +874,27 @@ func parseContractFile(path, pkg string) (*ContractFile, error) {
 			case "modifies":
 				*mod = append(*mod, c)
 			}
+		case "ghostset":
+			// ghostset g(x) = e : the function sets the ghost state g of object x to e when it returns (e is read in the
+			// exit state; old(...) is the entry state). Ghost state has no executable counterpart, so this clause IS the
+			// update: it is applied to the exit state before the ensures clauses are checked, and at call sites g(x)
+			// is havocked and then assumed equal to e.
+			if fn == nil {
+				return nil, errf("ghostset outside func")
+			}
+			j := strings.Index(rc.text, "=")
+			if j < 0 {
+				return nil, errf("ghostset needs '='")
+			}
+			tc, err := mkClause(rawClause{"", strings.TrimSpace(rc.text[:j]), rc.line}, path)
+			if err != nil {
+				return nil, err
+			}
+			vc, err := mkClause(rawClause{"", strings.TrimSpace(rc.text[j+1:]), rc.line}, path)
+			if err != nil {
+				return nil, err
+			}
+			fn.GhostSets = append(fn.GhostSets, &GhostSet{Target: tc, Val: vc})
 		case "let":
 			if fn == nil {
 				return nil, errf("let outside func")
